@@ -681,6 +681,13 @@ func (env *Env) callExpr(n *ast.CallExpr) Val {
 			// mark(x): always true; exists only to give quantifier instantiation a syntactic anchor
 			x := e.toIdx(env.typed(env.eval(n.Args[0]), intT))
 			return Scalar{app(SBool, "mark", x), boolT}
+		case "pow2":
+			// pow2(k): 2^k as a mathematical integer (int mode only; axiomatised in the prelude)
+			if e.ar.mode != ModeInt {
+				env.fail("pow2() is only available in int mode")
+			}
+			x := env.typed(env.eval(n.Args[0]), intT).(Scalar)
+			return Scalar{app(SInt, "pow2", x.T), intT}
 		case "implies":
 			return Scalar{Implies(env.evalBool(n.Args[0]), env.evalBool(n.Args[1])), boolT}
 		case "iff":
